@@ -32,6 +32,14 @@ def generate(rng, seed, index, tier):
     spec, x0, y0 = gen.gen_problem(rng, fam, nmax=5, mmax=3)
     x0 = np.clip(np.round(rng.normal(size=spec["n"]), 3), spec["xl"], spec["xu"])
     y0 = np.round(rng.normal(size=spec["m"]), 3)
+    if rng.random() < 0.2:
+        # a warm start: some variables sit within a few 1e-9 of a bound (closer than the perturbation), not on it
+        for j in range(spec["n"]):
+            u = rng.random()
+            if u < 0.35 and np.isfinite(spec["xu"][j]) and spec["xu"][j] > spec["xl"][j]:
+                x0[j] = spec["xu"][j] - float(rng.choice([1e-9, 3e-9, 6e-9]))
+            elif u < 0.7 and np.isfinite(spec["xl"][j]) and spec["xu"][j] > spec["xl"][j]:
+                x0[j] = spec["xl"][j] + float(rng.choice([1e-9, 3e-9, 6e-9]))
     # the sparse results come in every legal COO shape: repeated positions (an entry is the sum of its
     # contributions), stored zeros, changing entry order
     if rng.random() < 0.3:
